@@ -27,6 +27,9 @@ RULE = ("Hypothesis-generated (model, solver, all_solutions, valid) cases: model
         "for the method on PCBO/PCSO the model's own constraints. Non-trivial = at least two minimisers among the valid assignments, "
         "or the valid set excludes the unconstrained minimum (incl. no valid assignment). Distinct = distinct spec hash.")
 ASSUMPTIONS = [
+    "whenever the library calls the valid predicate the model object reads exactly as the caller passed it in (a predicate "
+    "may evaluate the model it was written for); a difference is reported as model_differs_inside_valid_callback",
+    "M.solve_bruteforce() of a user subclass (non-PC kinds) honours the subclass's is_solution_valid, as the method docstrings define it",
     "the model's variables are the labels occurring in its stored polynomial (models are refreshed, so this equals .variables; "
     "a case where it does not is counted as not_refreshed and skipped)",
     "coefficients are integers / dyadic rationals and penalties small, so objective values are compared with ==",
@@ -271,6 +274,10 @@ def _run(spec, rec, qv):
         if r is None:
             state["bad"] = repr(x)
             return False
+        # a predicate may read the model it was written for (e.g. lambda x: H.value(x) > e0): whenever the library hands
+        # control to the callback the model has to be what the caller passed in
+        if state.get("model_seen") is None and dict(M) != terms:
+            state["model_seen"] = dict(M)
         return bool(valid_rows[r])
 
     if user_sub:
@@ -293,6 +300,9 @@ def _run(spec, rec, qv):
                                                                    terms, cons)
     if after != before:
         raise Violation("model_changed/" + ("dict" if is_dict else "model"), "before=%r after=%r; %s" % (before, after, ctx))
+    if state.get("model_seen") is not None:
+        raise Violation("model_differs_inside_valid_callback",
+                        "while valid() was being called the model read %r instead of %r; %s" % (state["model_seen"], terms, ctx))
     if state["bad"] is not None:
         raise Violation("valid_called_with_wrong_assignment", "valid got %s, variables are %r; %s" % (state["bad"], order, ctx))
 
